@@ -10,11 +10,13 @@ use lazy_static::lazy_static;
 
 // Verification hook: run the protocol below on shuttle's controlled scheduler.
 #[cfg(dandavison_delta_verif_shuttle)]
+use crate::verif_hooks::SimCondvar as Condvar;
+#[cfg(dandavison_delta_verif_shuttle)]
 use shuttle::lazy_static;
 #[cfg(dandavison_delta_verif_shuttle)]
 use shuttle::sync::atomic::AtomicUsize;
 #[cfg(dandavison_delta_verif_shuttle)]
-use shuttle::sync::{Arc, Condvar, Mutex, MutexGuard};
+use shuttle::sync::{Arc, Mutex, MutexGuard};
 use sysinfo::{Pid, PidExt, Process, ProcessExt, ProcessRefreshKind, SystemExt};
 
 use crate::utils::DELTA_ATOMIC_ORDERING;
